@@ -577,6 +577,10 @@ pub fn run_scan(args: &Args, report: &mut Report) {
         let persistent = hammer || rng.chance(1, 2);
         let mut cfg = if persistent { Cfg::disk(16 + 8192) } else { Cfg::memory() };
         cfg.cache = !hammer && rng.chance(1, 2);
+        // half of the runs with TTL support: churn threads also change TTLs (update_ttl / persist swap the
+        // generation in both indexes just like a write does)
+        cfg.ttl = rng.chance(1, 2);
+        let ttl = cfg.ttl;
         let path = format!("{}/scan-{rid}.feox", dir.0);
         let store = match storeutil::open(&cfg, if persistent { Some(&path) } else { None }) {
             Ok(s) => Arc::new(s),
@@ -607,6 +611,9 @@ pub fn run_scan(args: &Args, report: &mut Report) {
         let mut ctl = SchedCtl::new(args.seed ^ rid, 10, 50).target("range.entry", if big { 10 } else { 150 }, 100);
         if hammer {
             ctl = ctl.target("read.before_pin", 700, 3000);
+        }
+        if ttl {
+            ctl = ctl.target("ttl.before_enqueue", 300, 300).target("ttl.before_update", 200, 200);
         }
         let ctl = Arc::new(ctl);
         hub().set_sched(Some(ctl.clone()));
@@ -657,7 +664,13 @@ pub fn run_scan(args: &Args, report: &mut Report) {
                         0..=5 => {
                             let _ = store.insert(k, &values::make(Tag { key_id: key_id(k), writer: c as u16, seq }, rng.range(22, 300) as usize));
                         }
-                        6..=8 => {
+                        6..=7 => {
+                            let _ = store.delete(k);
+                        }
+                        8 if ttl => {
+                            let _ = if rng.chance(1, 2) { store.update_ttl(k, 3600) } else { store.persist(k) };
+                        }
+                        8 => {
                             let _ = store.delete(k);
                         }
                         _ => {
@@ -788,6 +801,68 @@ pub fn run_scan(args: &Args, report: &mut Report) {
             for e in &snap.entries {
                 if !returned.contains(e.key.as_slice()) {
                     report.violation("scan:live-key-missing-at-quiescence", format!("key {} is live (get works) but a full range query at quiescence does not return it", hex(&e.key)), replay.clone());
+                    break;
+                }
+            }
+        }
+        // two-writer micro-races, each judged at once: writer A is held for 150 us right after it has swapped the
+        // generation (the scheduling points in front of its enqueue step), writer B replaces / deletes the same
+        // key meanwhile; when both have returned, the two indexes must hold the same record for that key and a
+        // one-key range query must agree with get
+        if report.violations.is_empty() {
+            let race_ctl = Arc::new(
+                SchedCtl::new(args.seed ^ rid, 0, 0)
+                    .target("ttl.before_enqueue", 1000, 150)
+                    .target("update.before_enqueue", 1000, 150)
+                    .target("delete.before_enqueue", 1000, 150)
+                    .target("insert.before_enqueue", 1000, 150),
+            );
+            for i in 0..120u32 {
+                let k = format!("race-{:02}", i % 7).into_bytes();
+                let _ = store.insert(&k, &values::make(Tag { key_id: key_id(&k), writer: 0, seq: i * 10 }, 50));
+                hub().set_sched(Some(race_ctl.clone()));
+                let a = {
+                    let (store, k) = (store.clone(), k.clone());
+                    let kind = i % 6;
+                    std::thread::spawn(move || match kind {
+                        0 if ttl => {
+                            let _ = store.update_ttl(&k, 3600);
+                        }
+                        1 if ttl => {
+                            let _ = store.persist(&k);
+                        }
+                        2 => {
+                            let _ = store.delete(&k);
+                        }
+                        3 => {
+                            let _ = store.insert_bytes(&k, bytes::Bytes::from(values::make(Tag { key_id: key_id(&k), writer: 1, seq: i * 10 + 1 }, 70)));
+                        }
+                        _ => {
+                            let _ = store.insert(&k, &values::make(Tag { key_id: key_id(&k), writer: 1, seq: i * 10 + 2 }, 60));
+                        }
+                    })
+                };
+                std::thread::sleep(std::time::Duration::from_micros(40 + (i as u64 % 5) * 20));
+                // B runs on this thread; the pause applies to it too, which only widens the overlap
+                if i % 4 == 3 {
+                    let _ = store.delete(&k);
+                } else {
+                    let _ = store.insert(&k, &values::make(Tag { key_id: key_id(&k), writer: 2, seq: i * 10 + 3 }, 80));
+                }
+                let _ = a.join();
+                hub().set_sched(None);
+                let e = store.verif_entry(&k);
+                let snap = store.verif_snapshot();
+                let slot = snap.tree.iter().find(|(tk, _)| *tk == k).map(|(_, a)| *a);
+                let got = store.get(&k).ok();
+                let ranged = store.range_query(&k, &k, 4).ok().and_then(|r| r.into_iter().next().map(|p| p.1));
+                report.count("index_micro_races", 1);
+                if slot != e.as_ref().map(|e| e.addr) {
+                    report.violation("scan:index-disagree", format!("after two writers raced on key {} (first one held 150 us after its swap) the ordered index {} while the hash table {}", hex(&k), if slot.is_some() { "holds a record" } else { "has no entry" }, if e.is_some() { "holds a different / a record" } else { "has no entry" }), replay.clone());
+                    break;
+                }
+                if got != ranged {
+                    report.violation("scan:range-differs-from-get", format!("after two writers raced on key {}: get = {:?}, one-key range query = {:?}", hex(&k), got.as_ref().map(|v| values::describe(v)), ranged.as_ref().map(|v| values::describe(v))), replay.clone());
                     break;
                 }
             }
